@@ -10,7 +10,7 @@ meta = {
   "needs_to_manifest": needs,
   "demonstration": demo,
   "confirmed": "patch applies to /repo HEAD, builds; demonstration fails with the patch and passes without (run by the sub-agent in its scratch worktree, re-checked here by applying the patch and running the quick checks)",
-  "ran": "tools/try_mutant.sh seeded/%s/patch.diff <props>  (git apply; ./check <id> --tier quick; git checkout -- .)" % name,
+  "ran": "tools/try_mutant_iso.sh seeded/%s/patch.diff <props>  (scratch worktree of /repo HEAD + scratch copy of /verif; git apply; ./check <id> --tier quick; removed)" % name,
   "detected_by_quick_checks": [x for x in det.split(",") if x and x != "-"],
 }
 json.dump(meta, open(os.path.join(d, "meta.json"), "w"), indent=1)
